@@ -54,8 +54,26 @@ def scenarios(draw):
         st.builds(lambda o, dt: {'a': 'edit', 'obj': o, 'dt': dt}, st.integers(0, 1), dts),
         st.just({'a': 'settle'}), st.just({'a': 'settle'}),
     ]
+    peer_kind = draw(st.sampled_from(['cluster', 'cluster', 'namespaced']))
+    if peer_kind == 'namespaced':
+        acts.append(st.builds(lambda g, dt: {'a': 'ns_bounce', 'gap': g, 'dt': dt}, st.sampled_from([0.0, 0.5, 3.0]), dts))
     actions = [{'a': 'start', 'op': NAMES[0], 'dt': draw(dts)}, {'a': 'start', 'op': NAMES[1], 'dt': draw(dts)}]
     actions += draw(st.lists(st.one_of(*acts), min_size=2, max_size=10))
+    if peer_kind == 'namespaced' and draw(st.integers(0, 2)) == 0:
+        # a paused operator whose namespace comes and goes, and whose blocking peer leaves afterwards: it must take over
+        order = sorted(range(n), key=lambda i: -prios[i])
+        hi, lo = NAMES[order[0]], NAMES[order[-1]]
+        actions = [{'a': 'start', 'op': hi, 'dt': draw(st.sampled_from([0.3, 1.0]))}, {'a': 'start', 'op': lo, 'dt': draw(st.sampled_from([1.0, 2.5, 7.0]))},
+                   {'a': 'ns_bounce', 'gap': draw(st.sampled_from([0.0, 0.5, 3.0])), 'dt': draw(st.sampled_from([1.0, 2.5, 7.0]))},
+                   {'a': draw(st.sampled_from(['stop', 'kill'])), 'op': hi, 'dt': draw(dts)}, {'a': 'settle'}] + actions[2:5]
+    # (at most one bounce per case: a namespace re-created again while the watchers of its previous life are still being terminated
+    #  confuses the operator's bookkeeping of served namespaces - that is C19's subject, see DESIGN 11.4, finding U - not peering's)
+    seen_bounce = False
+    for a in list(actions):
+        if a['a'] == 'ns_bounce':
+            if seen_bounce:
+                actions.remove(a)
+            seen_bounce = True
     actions.append({'a': 'settle'})
     spec = {'handlers': [{'kind': 'event', 'id': 'ev'}, {'kind': 'create', 'id': 'c', 'duration': 0}, {'kind': 'update', 'id': 'u', 'duration': 0},
                          {'kind': 'resume', 'id': 'r', 'duration': 0},
@@ -65,7 +83,7 @@ def scenarios(draw):
             'api_latency': draw(st.sampled_from([0.0, 0.0, 0.05, 0.4])), 'watch_latency': draw(st.sampled_from([0.0, 0.0, 0.1, 0.6])),
             'objects': draw(st.integers(1, 2)),
             # cluster-wide operators peer through a ClusterKopfPeering; operators that serve one namespace through a KopfPeering in it
-            'peer_kind': draw(st.sampled_from(['cluster', 'cluster', 'namespaced']))}
+            'peer_kind': peer_kind}
 
 
 class Run:
@@ -93,6 +111,7 @@ class Run:
         self.t_change = 0.0
         self.n = 0
         self.probes = []
+        self.bounces = []        # (t_deleted, t_recreated) of the served namespace
 
     def running(self, op):
         name = self.inc.get(op)
@@ -152,6 +171,19 @@ class Run:
         elif a == 'edit':
             self.n += 1
             self.c.edit(KEX, 'default', f'o{act["obj"] % self.sc["objects"]}', lambda b: b['spec'].update(f=self.n))
+        elif a == 'ns_bounce':
+            # the served namespace is deleted with everything in it and re-created (with a fresh peering object and fresh objects)
+            if self.namespaced:
+                self.c.remove_namespace('default')
+                self.advance(act.get('gap', 0.0))
+                self.c.add_namespace('default')
+                self.c.create(*self.pk, 'default', {})
+                for i in range(self.sc['objects']):
+                    self.c.create(KEX, 'default', f'o{i}', {'spec': {'f': 0}})
+                # the operators terminate the watchers/keep-alives of the namespace's previous life first (up to exit_timeout = 2 s),
+                # then start over: announce themselves, see each other, stop the daemons they had started meanwhile
+                self.bounces.append((now, self.sim.world.now))
+                self.t_change = self.sim.world.now + 6.0
         elif a == 'settle':
             # settle: 3 s after the last membership change, and 3 s after the expiry of every record that nobody renews
             # (a killed operator's, an environment-written one) unless it outlives the scenario
@@ -226,7 +258,10 @@ def check(run, res):
                 res.fail('C13/probe-not-handled', f'at t={t} operator {name} must be active ({s["status"]}), but did not handle the change made then')
             if not active and handled:
                 res.fail('C13/probe-handled-while-paused', f'at t={t} operator {name} must be paused ({s["status"]}), yet it handled the change made then')
-            daemons = [x for x in calls if x['inc'] == name and x['kind'] == 'daemon' and x['t0'] <= t + 2.0 and (x['t1'] is None or x['t1'] > t + 2.0)]
+            # (instances of objects that were wiped out with their namespace are orphans: C09's listed finding B, not peering's matter)
+            gone = {v['uid'] for v in c.history if v['rkey'] == KEX and v['type'] == 'DELETED' and v['t'] <= t + TOL}
+            daemons = [x for x in calls if x['inc'] == name and x['kind'] == 'daemon' and x['t0'] <= t + 2.0 and (x['t1'] is None or x['t1'] > t + 2.0)
+                       and x['uid'] not in gone]
             if active and len({x['uid'] for x in daemons}) < sc['objects']:
                 res.fail('C13/daemons-not-running', f'at t={t + 2.0} operator {name} is active, but runs daemons only for {len(daemons)} of {sc["objects"]} objects')
             if not active and daemons:
@@ -263,6 +298,8 @@ def check(run, res):
         seen = [(t, r) for t, r in mine if isinstance(r, dict)]
         for (t1, r1), (t2, r2) in zip(seen, seen[1:] + [(t_end, None)]):
             deadline = parse_iso(r1['lastseen']) + int(r1['lifetime'])
+            if any(t1 - TOL <= b1 and b0 <= t2 + TOL for (b0, b1) in [(x0, x1 + 8.0) for (x0, x1) in run.bounces]):
+                continue     # (the record vanished with its namespace; the renewal duty starts over once the operator serves the new one)
             if deadline <= t2 - TOL and t2 <= t_end + TOL:
                 res.fail('C13/record-expired-while-running', f'{name} (lifetime {lifetime}s) wrote its record at t={t1} (valid till {deadline}), and renewed it only at t={t2}'
                          if r2 is not None else f'{name} (lifetime {lifetime}s) wrote its record last at t={t1} (valid till {deadline}) though it ran till t={t_end}')
